@@ -34,6 +34,7 @@ def runs(tier):
          [["--n", 4, "--alpha", "B3"], ["--n", 4, "--alpha", "B3", "--wtype", "int"], ["--n", 5, "--alpha", "B2"]]),
         ("weights spanning 60 binary orders of magnitude: G(4) x A3 and G(5) x A2 (at most 8 edges), each with one more component = a single edge weighing 2^60",
          [["--n", 4, "--alpha", "A3", "--plus-heavy-k2"], ["--n", 5, "--alpha", "A2", "--max-m", 8, "--plus-heavy-k2"]]),
+        ("pairwise distinct weights with tied paths: G(4) x PM, G(5) with at most 6 edges x PM (all assignments of 1..m)", [["--n", 4, "--alpha", "PM"], ["--n", 5, "--alpha", "PM", "--max-m", 6]]),
         ("blob grammar K=3,T=2 x patterns U, M2, M3", [["--grammar", "blobs:3:2", "--alpha", a] for a in ("U", "M2", "M3")]),
         ("dense families x U", [["--families", "K:6,K:7,wheel:6,prism:4,petersen,Kb:3:4,grid:3:4,cube:3", "--alpha", "U"]]),
         ("symmetric families (antiprisms, prisms, Moebius ladders, ...) under 60 renumberings x U and under 30 renumberings x M2",
